@@ -25,10 +25,17 @@ fn steps_fwd(op: &Op, ctx: &dyn Context, operands: &mut dyn CoordinateSet) -> us
             verif_step(step, "F", true, 0, stack.len());
             continue;
         }
-        let m = match step.params.name.as_str() {
-            "push" => do_the_push(&mut stack, operands, &step.params.boolean),
-            "pop" => do_the_pop(&mut stack, operands, &step.params.boolean),
-            "stack" => stack_fwd(&mut stack, operands, &step.params),
+        // Stack steps are not dispatched through `Op::apply`, so their inversion
+        // (`inv` on the step, or on the macro it stems from) is taken care of here
+        let m = match (step.params.name.as_str(), step.descriptor.inverted) {
+            ("push", false) | ("pop", true) => {
+                do_the_push(&mut stack, operands, &step.params.boolean)
+            }
+            ("pop", false) | ("push", true) => {
+                do_the_pop(&mut stack, operands, &step.params.boolean)
+            }
+            ("stack", false) => stack_fwd(&mut stack, operands, &step.params),
+            ("stack", true) => stack_inv(&mut stack, operands, &step.params),
             _ => step.apply(ctx, operands, Fwd),
         };
         // A stack underflow invalidates all operands: Make sure later steps
@@ -75,10 +82,16 @@ fn steps_inv(op: &Op, ctx: &dyn Context, operands: &mut dyn CoordinateSet) -> us
             continue;
         }
         // Note: Under inverse invocation "push" calls pop and vice versa
-        let m = match step.params.name.as_str() {
-            "push" => do_the_pop(&mut stack, operands, &step.params.boolean),
-            "pop" => do_the_push(&mut stack, operands, &step.params.boolean),
-            "stack" => stack_inv(&mut stack, operands, &step.params),
+        // (and the other way round for a step that is itself inverted)
+        let m = match (step.params.name.as_str(), step.descriptor.inverted) {
+            ("push", false) | ("pop", true) => {
+                do_the_pop(&mut stack, operands, &step.params.boolean)
+            }
+            ("pop", false) | ("push", true) => {
+                do_the_push(&mut stack, operands, &step.params.boolean)
+            }
+            ("stack", false) => stack_inv(&mut stack, operands, &step.params),
+            ("stack", true) => stack_fwd(&mut stack, operands, &step.params),
             _ => step.apply(ctx, operands, Inv),
         };
         if m == 0 && !operands.is_empty() && is_stack_step(step) {
